@@ -354,6 +354,8 @@ des_enc_cbc_basic(const void *input, void *output, const int size, const uint64_
 #ifdef SAFE_DATA
         /* *ivec = iv; */
         clear_var(&iv, sizeof(iv));
+        clear_scratch_gps();
+        clear_scratch_xmms_sse();
 #endif
 }
 
@@ -388,6 +390,8 @@ des_dec_cbc_basic(const void *input, void *output, const int size, const uint64_
 #ifdef SAFE_DATA
         /* *ivec = iv; */
         clear_var(&iv, sizeof(iv));
+        clear_scratch_gps();
+        clear_scratch_xmms_sse();
 #endif
 }
 
@@ -427,6 +431,8 @@ des3_enc_cbc_basic(const void *input, void *output, const int size, const uint64
 #ifdef SAFE_DATA
         /* *ivec = iv; */
         clear_var(&iv, sizeof(iv));
+        clear_scratch_gps();
+        clear_scratch_xmms_sse();
 #endif
 }
 
@@ -469,6 +475,8 @@ des3_dec_cbc_basic(const void *input, void *output, const int size, const uint64
 #ifdef SAFE_DATA
         /* *ivec = iv; */
         clear_var(&iv, sizeof(iv));
+        clear_scratch_gps();
+        clear_scratch_xmms_sse();
 #endif
 }
 
@@ -563,6 +571,8 @@ docsis_des_enc_basic(const void *input, void *output, const int size, const uint
 #ifdef SAFE_DATA
         /* *ivec = iv; */
         clear_var(&iv, sizeof(iv));
+        clear_scratch_gps();
+        clear_scratch_xmms_sse();
 #endif
 }
 
@@ -592,6 +602,10 @@ docsis_des_dec_basic(const void *input, void *output, const int size, const uint
                 if (!nblocks) {
                         /* first block is the partial one */
                         cfb_one_basic(input, output, partial, ks, ivec);
+#ifdef SAFE_DATA
+                        clear_scratch_gps();
+                        clear_scratch_xmms_sse();
+#endif
                         return;
                 }
                 /* last block is partial */
@@ -604,6 +618,11 @@ docsis_des_dec_basic(const void *input, void *output, const int size, const uint
                 out[n] = enc_dec_1(in_block, ks, 0 /* decrypt */) ^ iv;
                 iv = in_block;
         }
+
+#ifdef SAFE_DATA
+        clear_scratch_gps();
+        clear_scratch_xmms_sse();
+#endif
 }
 
 IMB_DLL_EXPORT
@@ -611,4 +630,8 @@ void
 des_cfb_one(void *output, const void *input, const uint64_t *iv, const uint64_t *ks, const int size)
 {
         cfb_one_basic(input, output, size, ks, iv);
+#ifdef SAFE_DATA
+        clear_scratch_gps();
+        clear_scratch_xmms_sse();
+#endif
 }
